@@ -662,7 +662,20 @@ func pskConfig() *piondtls.Config {
 
 func serveDTLS(seed int64, good, bad, msgs int) string {
 	rng := rand.New(rand.NewSource(seed))
-	l, err := coapNet.NewDTLSListener("udp4", "127.0.0.1:0", pskConfig())
+	// the application's admission filter refuses the peers whose addresses are listed here (pion: OnConnectionAttempt);
+	// a refused peer must not cost the others anything
+	var refusedMu sync.Mutex
+	refused := map[string]bool{}
+	srvCfg := pskConfig()
+	srvCfg.OnConnectionAttempt = func(a net.Addr) error {
+		refusedMu.Lock()
+		defer refusedMu.Unlock()
+		if refused[a.String()] {
+			return errors.New("peer refused by the application")
+		}
+		return nil
+	}
+	l, err := coapNet.NewDTLSListener("udp4", "127.0.0.1:0", srvCfg)
 	if err != nil {
 		return "rig-error listen"
 	}
@@ -737,6 +750,25 @@ func serveDTLS(seed int64, good, bad, msgs int) string {
 				time.Sleep(time.Duration(500+brng.Intn(1500)) * time.Microsecond)
 			}
 		}()
+	}
+	// one more adversary: a peer the application refuses (it sends a proper ClientHello and keeps retrying)
+	if bad > 0 {
+		if raw, err := net.Dial("udp4", addr); err == nil {
+			refusedMu.Lock()
+			refused[raw.LocalAddr().String()] = true
+			refusedMu.Unlock()
+			if xc, err := piondtls.Client(dtlsnet.PacketConnFromConn(raw), raw.RemoteAddr(), pskConfig()); err == nil {
+				bwg.Add(1)
+				go func() {
+					defer bwg.Done()
+					_ = xc.HandshakeContext(stallCtx)
+					_ = xc.Close()
+					raw.Close()
+				}()
+			} else {
+				raw.Close()
+			}
+		}
 	}
 	time.Sleep(250 * time.Millisecond) // the stalled ClientHellos have reached the server's accept loop
 	results := make([]goodResult, good)
@@ -960,7 +992,7 @@ func serveTLS(seed int64, good, bad, msgs int) string {
 
 // ---------------------------------------------------------------- discovery
 
-func discover(responders int, dup bool) string {
+func discover(responders int, dup bool, failFirst ...bool) string {
 	l, err := coapNet.NewListenUDP("udp4", "127.0.0.1:0")
 	if err != nil {
 		return "rig-error listen"
@@ -1031,6 +1063,27 @@ func discover(responders int, dup bool) string {
 	}
 	_ = srvAddr
 	token := message.Token{0xD1, 0x5C, 0x0F}
+	failed := 0
+	if len(failFirst) > 0 && failFirst[0] {
+		// every token is first used by a discovery whose SEND fails (context already over): that call must leave nothing
+		// behind, the token must be free for the real discovery below and its responses must reach the real receiver
+		for i, a := range addrs {
+			ctx, cancel := context.WithCancel(context.Background())
+			cancel()
+			req := pool.NewMessage(ctx)
+			_ = req.SetupGet("/oic/res", append(append(message.Token(nil), token...), byte(i)))
+			req.SetMessageID(int32(2900 + i))
+			req.SetType(message.NonConfirmable)
+			err := s.DiscoveryRequest(req, a, func(cc *udpclient.Conn, resp *pool.Message) {
+				mu.Lock()
+				received = append(received, got{cc.RemoteAddr().String(), "to-failed-call", ""})
+				mu.Unlock()
+			})
+			if err != nil {
+				failed++
+			}
+		}
+	}
 	var dwg sync.WaitGroup
 	for i, a := range addrs {
 		a := a
@@ -1095,6 +1148,9 @@ func discover(responders int, dup bool) string {
 	if dup {
 		return fmt.Sprintf("receiver ok %d/%d bad %d default %d refused %d/%d dupgot %d", okc, responders, badc, deflt.Load(), refused, responders, dupGot)
 	}
+	if len(failFirst) > 0 && failFirst[0] {
+		return fmt.Sprintf("receiver ok %d/%d bad %d default %d failedsend %d/%d", okc, responders, badc, deflt.Load(), failed, responders)
+	}
 	return fmt.Sprintf("receiver ok %d/%d bad %d default %d", okc, responders, badc, deflt.Load())
 }
 
@@ -1132,6 +1188,9 @@ func TestC10(t *testing.T) {
 			}
 		case len(f) >= 2 && f[0] == "table":
 			fmt.Fprintln(w, peerTable(f[1:]))
+		case len(f) == 3 && f[0] == "discover" && f[2] == "failsend":
+			n, _ := strconv.Atoi(f[1])
+			fmt.Fprintln(w, discover(n, false, true))
 		case (len(f) == 2 || len(f) == 3 && f[2] == "dup") && f[0] == "discover":
 			n, _ := strconv.Atoi(f[1])
 			fmt.Fprintln(w, discover(n, len(f) == 3))
